@@ -27,7 +27,14 @@
                    nor a oneof member comes back absent (betterproto keeps no presence for such a field).  wf_aval leaves out
                    exactly: K13, this class, values below microsecond resolution (the quantifier of C05) and Durations a
                    fraction of a second beyond +-315 576 000 000 s (the bound of WellFormed.in_range is on the whole span);
-       C05_msg_hypotheses_satisfiable / C05_msg_nonvacuous: one hand-written schema with every field shape. *)
+       C05_msg_hypotheses_satisfiable / C05_msg_nonvacuous: one hand-written schema with every field shape.
+   * generated classes (last section; Model/C05Desc.v, Proofs/C05Desc{A,B,C,Wit}.v): js_matches is no longer a hypothesis for
+     what the plugin emits.  C05_generated_js_matches: for every descriptor set D with protoc_wf, names_ok (field naming =
+     the real safe_snake_case), bridge_ok and the decidable name-level condition json_names_ok, the generated schema is
+     matched (offset 11) by jschema_of_descriptor D, the reference-side reading of the SAME descriptor set;
+     C05_generated_emit / C05_generated_accept: the conclusions of C05_emit / C05_accept for every generated message class;
+     C05_generated_json_names_refuted (K3 on a descriptor) and C05_generated_enum_prefix_refuted (the plugin strips the
+     enum's name from value names, JSON carries member names: a real defect in both directions). *)
 From BP Require Import Base.Prelude Model.Types Model.Float Model.Object Model.WellFormed Model.TimeCore Model.Casing.
 From BP Require Import Spec.Time.
 From BP Require Model.Json Model.Time Spec.JsonMap.
@@ -300,3 +307,142 @@ Example C05_msg_instance_hypotheses :
   wf_aval Ex.ex_sc Ex.ex_js (length builtin_classes) (S.JMsg 0) Ex.ex_aval = true /\
   js_matches 0 Ex.ex_sc (jschema_of Ex.ex_sc) = true.
 Proof. repeat split; vm_compute; reflexivity. Qed.
+
+(* ====================================================================================== *)
+(* GENERATED CLASSES: js_matches discharged from the descriptor                            *)
+(* ====================================================================================== *)
+(* The last schema-level hypothesis of the chain (C03_generated_json_canonical kept `js_matches` as a hypothesis because the
+   class table holds the pythonised names only).  Model/C05Desc.v reads the SAME descriptor set D the plugin compiles the way
+   the reference does:
+     jschema_of_descriptor D   one JSON class per message of a generated package (map-entry types excepted), in the order
+                               schema_of_table numbers the message classes - so JSON class c is runtime class c + NB, NB = 11
+                               bundled classes, and the synthetic map-Entry classes behind them have no JSON class (a map is
+                               one field of cardinality MapOf key); per field the PROTO name, protoc's default json_name
+                               (protoc_json_name; the descriptor model has no `[json_name = ...]` option), the kind by
+                               descriptor.proto's type number / well-known type NAME / position of the referenced message
+                               or enum, cardinality, oneof id numbered as schema_of_table numbers groups; per enum its
+                               PROTO value names;
+     json_names_ok emn D       (a) every field name json_name_safe [K3; protoc does not guarantee it]
+                               (b) json names distinct per message [protoc guarantees it for proto3 files]
+                               (c) enum value names distinct [protoc guarantees it]  (d) none starts with "__" [not guaranteed]
+                               (e) the plugin leaves every enum value name alone: emn v (flattened enum name) = v [NOT
+                                   guaranteed: pythonize_enum_member_name strips the enum's own name, `COLOR_RED` of
+                                   `enum Color` becomes member RED - C05_generated_enum_prefix_refuted, a REAL defect in both
+                                   directions, replayed against the real plugin and google.protobuf by stage T5 of the check].
+   field_name is the real safe_snake_case; class_name and enum_member_name stay universally quantified (names_ok constrains
+   them), json_names_ok (e) is the only place the enum naming enters.  The runtime side conditions protoc_wf / names_ok /
+   bridge_ok are C03's; gen_keys_ok CAMEL (C03_keys_residual_refuted) stays the premise of the accept direction. *)
+From BP Require Import Spec.Descriptor Model.Plugin Proofs.PluginP Proofs.PluginWitP Model.C03Bridge Model.C03Chain Proofs.C03BridgeWit.
+From BP Require Import Model.C05Desc Proofs.C05DescC Proofs.C05DescWit.
+From Coq Require String.
+Import String.StringSyntax.
+
+Theorem C05_generated_js_matches :
+  forall (class_name : str -> str) (enum_member_name : str -> str -> str) (D : descriptor),
+    protoc_wf D = true -> names_ok Casing.safe_snake_case class_name enum_member_name D = true -> bridge_ok D = true ->
+    json_names_ok enum_member_name D = true ->
+    exists t, class_table_of Casing.safe_snake_case class_name enum_member_name D = Some t
+      /\ reflect (compile Casing.safe_snake_case class_name enum_member_name D) = Ok t
+      /\ List.length (S.jclasses (jschema_of_descriptor D)) = n_msgs t
+      /\ js_matches NB (schema_of_table t) (jschema_of_descriptor D) = true.
+Proof. exact generated_js_matches. Qed.
+Print Assumptions C05_generated_js_matches.
+
+(* for everything the plugin emits: what a generated class writes with to_dict(CAMEL) + json.dumps is accepted by the specified
+   reference parser FOR THE SAME .proto as the abstract message the object denotes (every generated message class c < n_msgs t,
+   every emit_good value) ... *)
+Theorem C05_generated_emit :
+  forall (class_name : str -> str) (enum_member_name : str -> str -> str) (D : descriptor),
+    protoc_wf D = true -> names_ok Casing.safe_snake_case class_name enum_member_name D = true -> bridge_ok D = true ->
+    json_names_ok enum_member_name D = true ->
+    exists t, reflect (compile Casing.safe_snake_case class_name enum_member_name D) = Ok t /\
+      let sc := schema_of_table t in
+      let js := jschema_of_descriptor D in
+      forall c o, emit_good sc o = true -> ocls o = (c + NB)%nat -> (c < n_msgs t)%nat ->
+        model_emit_accepts sc js c o = Some (abs_obj sc o).
+Proof. exact generated_emit. Qed.
+Print Assumptions C05_generated_emit.
+
+(* ... and the generated class reads the canonical JSON the reference writes for any well-formed abstract message of that
+   .proto back to that message *)
+Theorem C05_generated_accept :
+  forall (class_name : str -> str) (enum_member_name : str -> str -> str) (D : descriptor),
+    protoc_wf D = true -> names_ok Casing.safe_snake_case class_name enum_member_name D = true -> bridge_ok D = true ->
+    json_names_ok enum_member_name D = true -> gen_keys_ok J.CAMEL Casing.safe_snake_case D = true ->
+    exists t, reflect (compile Casing.safe_snake_case class_name enum_member_name D) = Ok t /\
+      let sc := schema_of_table t in
+      let js := jschema_of_descriptor D in
+      forall c a, wf_aval sc js NB (S.JMsg c) a = true -> model_reads_canonical sc js c (c + NB) a = Some a.
+Proof. exact generated_accept. Qed.
+Print Assumptions C05_generated_accept.
+
+(* json_names_ok cannot be dropped (K3 at the level of descriptors): `message M { int32 HTTPStatus = 1; int32 a1b = 2; }`
+   meets every other premise with the real naming; M(http_status=7) is written {"httpStatus": 7}, the reference rejects it
+   (canonical: {"HTTPStatus": 7}); from_dict does read the canonical form, what it re-emits is rejected again *)
+Theorem C05_generated_json_names_refuted :
+  real_premises D_k3json = true
+  /\ json_names_ok Casing.pythonize_enum_member_name D_k3json = false /\ json_names_ok (fun n _ => n) D_k3json = false
+  /\ S_k3json = schema_of_table (real_table D_k3json) /\ JS_k3json = jschema_of_descriptor D_k3json
+  /\ js_matches NB S_k3json JS_k3json = false
+  /\ emit_good S_k3json o_k3json = true
+  /\ J.to_dict J.CAMEL false S_k3json o_k3json = J.JObj [(J.JStr (b "httpStatus"), J.JInt 7)]
+  /\ model_emit_accepts S_k3json JS_k3json 0 o_k3json = None
+  /\ abs_obj S_k3json o_k3json = S.AMsg [S.FOne (S.AInt 7); S.FOne (S.AInt 0)]
+  /\ wf_aval S_k3json JS_k3json NB (S.JMsg 0) (abs_obj S_k3json o_k3json) = true
+  /\ S.json_spec JS_k3json 0 (abs_obj S_k3json o_k3json) = Some (S.JObj [(b "HTTPStatus", S.JNum 7)])
+  /\ J.from_dict_cls S_k3json 11 (unconv (S.JObj [(b "HTTPStatus", S.JNum 7)])) = Ok (Obj 11 [PInt 7; PPlaceholder] true [] [])
+  /\ model_reads_canonical S_k3json JS_k3json 0 (0 + NB) (abs_obj S_k3json o_k3json) = None.
+Proof. exact json_names_needed. Qed.
+Print Assumptions C05_generated_json_names_refuted.
+
+(* conjunct (e) is a REAL defect of the plugin + runtime pair, not a modelling artefact: `enum Color { COLOR_UNSPECIFIED = 0;
+   COLOR_RED = 1; } message M { Color c = 1; }` - every other premise holds and json_names_ok holds for a plugin that keeps the
+   value names; with the real pythonize_enum_member_name the members are UNSPECIFIED / RED, M(c=Color.RED) is written
+   {"c": "RED"} (reference: "Invalid enum value RED"), and from_dict raises ValueError on the canonical {"c": "COLOR_RED"} *)
+Theorem C05_generated_enum_prefix_refuted :
+  real_premises D_enum_prefix = true
+  /\ json_names_ok (fun n _ => n) D_enum_prefix = true /\ json_names_ok Casing.pythonize_enum_member_name D_enum_prefix = false
+  /\ S_enum_prefix = schema_of_table (real_table D_enum_prefix) /\ JS_enum_prefix = jschema_of_descriptor D_enum_prefix
+  /\ map emembers (enums S_enum_prefix) = [[(b "UNSPECIFIED", 0); (b "RED", 1)]]
+  /\ S.jenums JS_enum_prefix = [[(b "COLOR_UNSPECIFIED", 0); (b "COLOR_RED", 1)]]
+  /\ js_matches NB S_enum_prefix JS_enum_prefix = false
+  /\ emit_good S_enum_prefix o_enum_prefix = true
+  /\ J.to_dict J.CAMEL false S_enum_prefix o_enum_prefix = J.JObj [(J.JStr (b "c"), J.JStr (b "RED"))]
+  /\ model_emit_accepts S_enum_prefix JS_enum_prefix 0 o_enum_prefix = None
+  /\ abs_obj S_enum_prefix o_enum_prefix = S.AMsg [S.FOne (S.AEnum 1)]
+  /\ wf_aval S_enum_prefix JS_enum_prefix NB (S.JMsg 0) (abs_obj S_enum_prefix o_enum_prefix) = true
+  /\ S.json_spec JS_enum_prefix 0 (abs_obj S_enum_prefix o_enum_prefix) = Some (S.JObj [(b "c", S.JStr (b "COLOR_RED"))])
+  /\ J.from_dict_cls S_enum_prefix 11 (unconv (S.JObj [(b "c", S.JStr (b "COLOR_RED"))])) = Err EValue
+  /\ model_reads_canonical S_enum_prefix JS_enum_prefix 0 (0 + NB) (abs_obj S_enum_prefix o_enum_prefix) = None.
+Proof. exact enum_prefix_refuted. Qed.
+Print Assumptions C05_generated_enum_prefix_refuted.
+
+(* ---- non-vacuity: D_ok, the bridge's example descriptor (Proofs/PluginWitP.v), with the REAL naming functions ---- *)
+(* every premise of the three theorems holds; the table and the schema are the bridge's T_ok / S_ok *)
+Example C05_generated_premises :
+  protoc_wf D_ok && names_ok Casing.safe_snake_case Casing.pascal_case Casing.pythonize_enum_member_name D_ok && bridge_ok D_ok
+    && gen_keys_ok J.CAMEL Casing.safe_snake_case D_ok = true
+  /\ json_names_ok Casing.pythonize_enum_member_name D_ok = true
+  /\ class_table_of Casing.safe_snake_case Casing.pascal_case Casing.pythonize_enum_member_name D_ok = Some T_ok
+  /\ schema_of_table T_ok = S_ok /\ JS_ok = jschema_of_descriptor D_ok /\ n_msgs T_ok = 2%nat.
+Proof. vm_compute. repeat split; reflexivity. Qed.
+(* the reference-side schema of D_ok is the expected non-trivial one (json name byName, a map of messages, a oneof of a scalar
+   and an enum, a proto3 optional, a repeated message, Timestamp, a wrapper, a map of enums, a recursive reference) *)
+Example C05_generated_jschema :
+  map (fun c => List.length c) (S.jclasses JS_ok) = [8; 2]%nat /\ List.length (S.jenums JS_ok) = 2%nat
+  /\ map (fun f => (S.jf_json f, S.jf_kind f, S.jf_card f, S.jf_oneof f)) (S.jclass JS_ok 0) =
+     [(b "byName", S.JMsg 1, S.MapOf S.KString, None); (b "a", S.JScalar S.KInt32, S.Explicit, Some 0%nat);
+      (b "c", S.JEnum 0, S.Explicit, Some 0%nat); (b "od", S.JScalar S.KDouble, S.Explicit, None);
+      (b "rs", S.JMsg 1, S.Repeated, None); (b "ts", S.JTimestamp, S.Explicit, None);
+      (b "bv", S.JWrapper S.KBool, S.Explicit, None); (b "colors", S.JEnum 0, S.MapOf S.KInt64, None)]
+  /\ map (fun f => (S.jf_name f, S.jf_kind f, S.jf_card f)) (S.jclass JS_ok 1) =
+     [(b "back", S.JMsg 0, S.Explicit); (b "k", S.JEnum 1, S.Implicit)].
+Proof. exact JS_ok_shape. Qed.
+(* the value ok_outer of the generated class Outer meets the value-level hypotheses, and both conclusions hold of it *)
+Example C05_generated_instance :
+  js_matches NB S_ok JS_ok = true /\ emit_good S_ok ok_outer = true /\ ocls ok_outer = (0 + NB)%nat
+  /\ model_emit_accepts S_ok JS_ok 0 ok_outer = Some (abs_obj S_ok ok_outer)
+  /\ wf_aval S_ok JS_ok NB (S.JMsg 0) (abs_obj S_ok ok_outer) = true
+  /\ model_reads_canonical S_ok JS_ok 0 (0 + NB) (abs_obj S_ok ok_outer) = Some (abs_obj S_ok ok_outer)
+  /\ match S.json_spec JS_ok 0 (abs_obj S_ok ok_outer) with Some (S.JObj d) => List.length d = 7%nat | _ => False end.
+Proof. exact D_ok_json_instance. Qed.
